@@ -22,6 +22,77 @@ def trace_is_sc(tr):
     return tr.get("kind") == "call" and is_should_continue_call(tr["call"])
 
 
+def interrupted_flag_guard(ck, facts, R, sg):
+    """The other accepted discipline: a flag in the context (`RecursiveContext.interrupted`) that
+      (1) is set to true by the closure solve_root_goal wraps around the caller's callback, on the edge where the callback returned
+          false, and that closure - not the raw callback - is what solve_goal / the iterations receive;
+      (2) is cleared at the root entry before solving;
+      (3) is read in solve_goal: the edges on which it is false.
+    -> (edges of solve_goal on which the flag is false, description) or ([], reason)"""
+    cfg = sg.cfg
+    def to_field(c, operand, depth=5):
+        tr = c.trace(operand)
+        for _ in range(depth):
+            if tr.get("kind") == "field":
+                return any(str(f).endswith(".interrupted") or str(f) == "interrupted" for f in tr.get("fields", []))
+            if tr.get("kind") == "call" and tr["call"].get("a"):
+                tr = c.trace(tr["call"]["a"][0])
+                continue
+            return False
+        return False
+    LOADS = ("Atomic::load", "AtomicBool::load", "Atomic::<T>::load", "Cell::<T>::get", "Cell::get")
+    STORES = ("Atomic::store", "AtomicBool::store", "Atomic::<T>::store", "Cell::<T>::set", "Cell::set")
+    load_false = cfg.bool_edges(lambda tr: tr.get("kind") == "call" and callee_matches(tr["call"], LOADS)
+                                and to_field(cfg, tr["call"]["a"][0]), False)
+    if not load_false:
+        return [], "no read of an `interrupted` flag in solve_goal"
+    root = facts.body(RC + "solve_root_goal")
+    if root is None:
+        return [], "solve_root_goal not found"
+    clos = facts.closures_of(root)
+    setter = None
+    for c in clos:
+        th = c.thir
+        if th is None:
+            continue
+        stores = [x for x in calls(th, STORES) if "true" in repr(x.get("args", [])[-2:])]
+        if not stores:
+            continue
+        # the store must sit in the branch taken when the wrapped callback returned false
+        lets = {st["pat"].get("n"): st["init"] for st in walk(th) if st.get("k") == "let" and st.get("init") is not None and st["pat"].get("k") == "bind"}
+
+        def from_callback(e, depth=3):
+            if any(is_should_continue_call(x) or callee_matches(x, ("Fn::call", "FnMut::call_mut", "FnOnce::call_once")) for x in calls(e)):
+                return True
+            return depth > 0 and any(v in lets and from_callback(lets[v], depth - 1) for v in expr_vars(e))
+        ok_branch = False
+        for n in walk(th):
+            if n.get("k") == "if" and any(x is stores[0] for x in walk(n["then"])):
+                c0 = peel(n["cond"])
+                if c0.get("k") == "un" and c0.get("op") == "Not" and from_callback(c0["e"]):
+                    ok_branch = True
+        # and the closure returns what the callback returned
+        if ok_branch:
+            setter = c
+    if setter is None:
+        return [], "no wrapper closure in solve_root_goal that sets the flag when the callback returns false"
+    rcfg = root.cfg
+    sgc = rcfg.call_blocks(RC + "solve_goal")
+    if not sgc:
+        return [], "solve_root_goal does not call solve_goal"
+    # the callback handed to solve_goal is the wrapper closure (a local), not the raw parameter
+    t = rcfg.blocks[sgc[0]]["t"]
+    last = t.get("a", [])[-1] if t.get("a") else None
+    raw = isinstance(last, dict) and (last.get("m") or last.get("c") or {}).get("l") in range(1, (root.mir.get("argc") or 4) + 1) \
+        and not (last.get("m") or last.get("c") or {}).get("pj")
+    if raw:
+        return [], "solve_goal still receives the caller's raw callback"
+    resets = [b for b in rcfg.call_blocks(STORES)]
+    if not resets or not all(rcfg.must_pass_blocks(b, resets) for b in sgc):
+        return [], "the flag is not cleared at the root entry"
+    return load_false, "wrapper closure in solve_root_goal; cleared at entry"
+
+
 def run(ck, facts, tier):
     from shared import state
     state.result_stores(ck, facts, "C11.RESULT-STORES")
@@ -59,11 +130,15 @@ def run(ck, facts, tier):
             guards = cfg.bool_edges(trace_is_sc, True) + cfg.bool_edges(trace_is_sc, False)
             # a guard may also be a flag returned by solve_new_subgoal / stored in self; accept any switch whose source is derived
             # from a should_continue call anywhere in this body
+            flag_guard, flag_why = interrupted_flag_guard(ck, facts, R, sg)
             for sblk in sinks:
                 guarded = bool(guards) and cfg.must_pass_edges(sblk, guards)
                 inst = "%s:move_to_cache" % short(RC + "solve_goal")
                 if guarded:
                     ck.ok(R, inst, "promotion to the cache is control-dependent on should_continue()")
+                elif flag_guard and cfg.must_pass_edges(sblk, flag_guard):
+                    ck.ok(R, inst, "promotion to the cache only on the `interrupted == false` edge; the flag is set on every false "
+                                   "return of the caller's callback (%s)" % flag_why)
                 else:
                     ck.violation(R, inst, sg.where(cfg.blocks[sblk]["t"].get("ln")),
                                  "the `Ambig(Unknown)` produced when the caller interrupts the solve is stored in the search graph and promoted "
